@@ -112,6 +112,7 @@ type Stats struct {
 	TapeExhausted      int64
 	Intrusions         int64
 	StackGuard         int64
+	ChildTasks         int64 // goroutines started by the library (rewritten go statements)
 }
 
 // Event is one record of the trace ring.
@@ -183,6 +184,8 @@ type World struct {
 	rotCtr     uint64
 	poolCount  uint32
 
+	mainParked bool // the main goroutine is parked as a task (waiting for goroutines the library started)
+
 	// Intruder is the interfering call (set by the harness); intruding is true while it runs.
 	Intruder  func()
 	intruding bool
@@ -203,6 +206,7 @@ func NewWorld(cfg Config) *World {
 		w.Cfg.StepBudget = 50_000_000
 	}
 	w.main.id = -1
+	w.main.wake = make(chan struct{}, 1)
 	w.main.budget = w.Cfg.StepBudget
 	w.main.state = taskRunnable
 	w.cur = &w.main
@@ -410,8 +414,13 @@ func (w *World) BeginCall(id uint32, kind uint32, src *Source, budget int64) {
 // EndCall marks the end of the current task's call.  failed says whether the call
 // returned an error or panicked (used by the adversarial pool policy).
 //
-//go:norace
 func (w *World) EndCall(failed bool, digest uint32) (steps int64) {
+	w.DrainChildren()
+	return w.endCall(failed, digest)
+}
+
+//go:norace
+func (w *World) endCall(failed bool, digest uint32) (steps int64) {
 	t := w.cur
 	if failed {
 		markFailed(w, t.callSerial)
